@@ -11,7 +11,7 @@ Definition lay_blank_gap : lay1 :=
 Definition b_iso : text := T "<OFX>" ++ [233; 128; 159; 10] ++ T "<A>x</A>" ++ [13; 10] ++ T "</OFX>".
 Definition b_utf : text := T "<OFX>" ++ [8364; 28450; 128169; 160] ++ T "</OFX>".
 Definition h2 : hdr2 := Hdr2 200 220 (T "TYPE1") (T "x") (T "0123456789abcdefghijklmnopqrstuvwxyz").
-Definition lay2_wild : lay2 := Lay2 [[]; [32]] 39 [] [13; 10; 13; 10].
+Definition lay2_wild : lay2 := Lay2 [[]; [32]] (Some 39) (Some 34) None [] [13; 10; 13; 10].
 Definition enc (cd : N) (s : text) : text := match encode_opt cd s with Some b => b | None => [] end.
 Theorem examples_nonvacuous :
   valid1 h_iso = true /\ valid1 h_utf = true /\ valid2 h2 = true
